@@ -20,7 +20,8 @@ package disk
 
 //@ pred mismatch(a, b) = a > 0 - 1 && b > 0 - 1 && a != b
 //@ pred isEmptyCas(kind, hash, size) = kind == 1 && size <= 0 && hash == "e3b0c44298fc1c149afbf4c8996fb92427ae41e4649b934ca495991b7852b855"
-//@ pred wfCache(c) = c != nil && c.diskWaitSem != nil && 0 < c.maxBlobSize && c.maxBlobSize <= B62() && c.zstd != nil
+//@ pred wfCache(c) = c != nil && c.diskWaitSem != nil && 0 < c.maxBlobSize && c.maxBlobSize <= B62() && c.zstd != nil &&
+//@   0 < c.maxProxyBlobSize && c.maxProxyBlobSize <= B62()
 //@ pred lookupKey(kind, hash) = (kind == 0 ? "ac" : (kind == 1 ? "cas" : "raw")) + "/" + hash
 
 //@ func isSizeMismatch(requestedSize int64, foundSize int64) bool
@@ -55,11 +56,11 @@ package disk
 //@ func (c *diskCache) commit(key string, legacy bool, tempfile string, reservedSize int64, logicalSize int64, sizeOnDisk int64, random string) (unreserve bool, removeTempfile bool, err error)
 //@   serves C01 C03 C04 C07 C08 C12
 //@   requires wfCache(c) && !muHeld
-//@   requires[C03] own: 0 <= reservedSize && reservedSize <= held
+//@   requires[C03] own: reservedSize <= held && 0 <= held
 //@   requires sizes: 0 <= sizeOnDisk && sizeOnDisk <= B62() && 0 <= logicalSize && logicalSize <= B62()
 //@   modifies lruState(c.lru), held, adopted
 //@   ensures[C07] unlocked: !muHeld
-//@   ensures[C03] held: held == old(held) - (unreserve ? 0 : reservedSize)
+//@   ensures[C03] held: held == old(held) - ((unreserve || reservedSize <= 0) ? 0 : reservedSize)
 //@   ensures[C04] adopt: (removeTempfile ==> adopted == old(adopted)) && (!removeTempfile ==> adopted == old(adopted) + 1)
 //@   ensures[C01,C12] result: (err == nil <==> !removeTempfile) && (err == nil ==> !unreserve) && (unreserve ==> reservedSize > 0)
 //@   call Add#* asserts[C01,C04] item: arg1 == key && arg2.size == logicalSize && arg2.sizeOnDisk == sizeOnDisk && arg2.random == random && arg2.legacy == legacy
@@ -81,6 +82,27 @@ package disk
 //@   call Reserve#* asserts[C05,C12] logical: arg1 == size && size <= c.maxProxyBlobSize && c.proxy != nil
 //@   call GetZstdReadCloser#* asserts[C02] args: arg2 == size && arg3 == offset && zstd
 //@   call GetUncompressedReadCloser#* asserts[C02] args: arg2 == size && arg3 == offset && !zstd
+
+//@ func (c *diskCache) get(ctx context.Context, kind cache.EntryKind, hash string, size int64, offset int64, zstd bool) (rc io.ReadCloser, s int64, rErr error)
+//@   serves C02 C03 C04 C07 C08 C12 C14 C15 C17 C18
+//@   requires wfCache(c) && !muHeld && held >= 0 && ctx != nil
+//@   modifies lruState(c.lru), held, resN, hitN, hitSize, adopted, tmpOpen, tmpName, tmpRandom, tfc.idum
+//@   ensures[C07] unlocked: !muHeld
+//@   ensures[C03,C12] noleak: held == old(held)
+//@   ensures[C04,C12] tmpclean: tmpOpen - adopted == old(tmpOpen) - old(adopted)
+//@   ensures[C02] empty: (len(hash) == 64 && isEmptyCas(kind, hash, size)) ==> (rc != nil && s == 0 && rErr == nil && hitN == old(hitN) && resN == old(resN))
+//@   ensures[C15] onlycas: (len(hash) == 64 && !isEmptyCas(kind, hash, size) && kind != 1 && zstd) ==> (rc == nil && rErr != nil && hitN == old(hitN) && resN == old(resN) && adopted == old(adopted))
+//@   ensures[C02] badoffset: (offset < 0 || (size > 0 && offset >= size)) ==> (rc == nil || (len(hash) == 64 && isEmptyCas(kind, hash, size)))
+//@   ensures[C02,C12] hit: rc != nil ==> (s >= 0 && rErr == nil)
+//@   ensures[C02,C12] match: (rc != nil && (hitN <= old(hitN) + 1 || kind != 1)) ==> !mismatch(size, s)
+//@   ensures[C18] proxylimit: (rc != nil && adopted > old(adopted)) ==> (s <= c.maxProxyBlobSize && size <= c.maxProxyBlobSize)
+//@   ensures[C12] nopoison: rc == nil ==> adopted == old(adopted)
+//@   ensures[C02] miss: rc == nil ==> s == 0 - 1
+//@   call Get#* asserts[C12,C18] ask: arg2 == kind && arg3 == hash && arg4 == size && size <= c.maxProxyBlobSize && !muHeld
+//@   call commit#* asserts[C04,C08,C12] committed: arg1 == lookupKey(kind, hash) && arg3 == tmpName && arg4 == size && arg7 == tmpRandom && 0 <= arg5 && arg5 <= c.maxProxyBlobSize && !mismatch(size, arg5)
+//@   call commit#* asserts[C12] rawlength: (kind != 1 || c.storageMode == 0) ==> arg6 == arg5
+//@   call GetZstdReadCloser#* asserts[C02,C12] validated: arg3 == offset && zstd
+//@   call GetUncompressedReadCloser#* asserts[C02,C12] validated: arg3 == offset && !zstd
 
 //@ func (c *diskCache) writeAndCloseFile(ctx context.Context, r io.Reader, kind cache.EntryKind, hash string, size int64, f *os.File) (int64, error)
 //@   serves C01 C08 C14
